@@ -450,7 +450,10 @@ func (cd *cmdDispatcher) dispatchHandler(ctx *cmdContext) (output respValue) {
 	cd.dss.mu.Unlock()
 
 	if phook != nil {
-		hook := *phook
+		var hook DispatchHook
+		if loaded := phook.Load(); loaded != nil {
+			hook = *loaded
+		}
 		if hook != nil {
 			l.Tracef("calling handler hook for command '%s'", cmdToken)
 			hooked, r, err := hook(cmdToken, ctx.args.toNative())
